@@ -364,14 +364,14 @@ func TestVerif_C55(t *testing.T) {
 		t.Fatalf("only %d scripts", len(all))
 	}
 	seed := kit.Seed()
-	// selection: thorough = every clean and single-fault script and a seeded quarter of the pairs;
+	// selection: thorough = every clean script, a seeded half of the single-fault scripts and an eighth of the pairs;
 	// quick = about 1 in 40 by a seeded hash
 	var sel []*c55Script
 	for _, s := range all {
 		h := uint64(s.idx)*2654435761 + uint64(seed)*40503
 		h ^= h >> 13
 		if kit.Thorough() {
-			if s.Group != "pair" || h%4 == 0 {
+			if s.Group == "clean" || (s.Group == "single" && h%2 == 0) || (s.Group == "pair" && h%8 == 0) {
 				sel = append(sel, s)
 			}
 		} else if h%40 == 0 {
@@ -640,7 +640,7 @@ func c55Binary(t *testing.T, all []*c55Script, res *kit.Result, recs *kit.NDJSON
 	rng := kit.Rand(55)
 	rng.Shuffle(len(cand), func(i, j int) { cand[i], cand[j] = cand[j], cand[i] })
 	// round robin over the fault classes so that clean, missing-target and permission scripts are all present
-	want := kit.Pick(6, 40)
+	want := kit.Pick(6, 24)
 	byClass := map[string][]*c55Script{}
 	for _, s := range cand {
 		cls := "clean"
